@@ -39,9 +39,14 @@ type C07Case struct {
 	// Joiner: a plugin that connects after the other plugins are up and fails during one of
 	// its registration-time requests (Configure or Synchronize); after the first request a
 	// second, healthy plugin (Idx2) joins and has to become active.
-	Joiner      *JoinerSpec `json:"joiner,omitempty"`
-	HookPoint   string      `json:"hook_point,omitempty"`
-	HookSleepUs int         `json:"hook_sleep_us,omitempty"`
+	Joiner *JoinerSpec `json:"joiner,omitempty"`
+	// RtOpts: the ttRPC options the runtime itself passes to the adaptation
+	// (adaptation.WithTTRPCOptions), all of them pass-through: "" (none) | client-interceptor
+	// (WithUnaryClientInterceptor) | client-chain (WithChainUnaryClientInterceptor) |
+	// server-interceptor (WithUnaryServerInterceptor) | client+server
+	RtOpts      string `json:"rt_opts,omitempty"`
+	HookPoint   string `json:"hook_point,omitempty"`
+	HookSleepUs int    `json:"hook_sleep_us,omitempty"`
 }
 
 // JoinerSpec: the late joiner (Idx) whose Fault strikes during Phase, and the healthy second
@@ -115,7 +120,7 @@ type Fault struct {
 	// cut p2r, wrongtype, undecodable.
 	UpdDuring string `json:"upd_during,omitempty"`
 	// Kind "updrop": while the healthy plugin HoldIdx holds the first request in its handler for
-	// HoldMs (50..200), this plugin issues an unsolicited UpdateContainers call from a goroutine
+	// HoldMs (50..150), this plugin issues an unsolicited UpdateContainers call from a goroutine
 	// of its own and, half-way through the hold, disconnects.
 	HoldIdx int `json:"hold_idx,omitempty"`
 	HoldMs  int `json:"hold_ms,omitempty"`
@@ -371,6 +376,7 @@ func genC07(t *rapid.T) C07Case {
 	c.FollowCtx = rapid.SampledFrom(ctxKinds).Draw(t, "follow-ctx")
 	c.CtxDeadlineS = rapid.IntRange(30, 60).Draw(t, "ctx-deadline")
 	sizes := []string{"", "1m", "", "256k", "", "3m", "", ""}
+	c.RtOpts = rapid.SampledFrom([]string{"", "", "", "client-interceptor", "", "", "client-chain", "", "", "server-interceptor", "", "", "client+server", "", "", ""}).Draw(t, "rt-opts")
 	c.ReqSize = rapid.SampledFrom(sizes).Draw(t, "req-size")
 	c.FollowSize = rapid.SampledFrom([]string{"", "", "", "1m", "", "", "256k", "3m"}).Draw(t, "follow-size")
 	n := rapid.SampledFrom([]int{2, 3, 3, 4, 4, 5}).Draw(t, "plugins")
@@ -439,7 +445,7 @@ func genC07(t *rapid.T) C07Case {
 		case eligible && d == 1 && len(holders) > 0 && ft.Kind != "hang" && ft.Kind != "error":
 			// instead: disconnects with an update queued while a healthy plugin holds the request
 			*ft = Fault{Kind: "updrop", HoldIdx: rapid.SampledFrom(holders).Draw(t, "holder"),
-				HoldMs: rapid.SampledFrom([]int{50, 200, 100, 150}).Draw(t, "hold-ms")}
+				HoldMs: rapid.SampledFrom([]int{50, 150, 100}).Draw(t, "hold-ms")}
 			holders = nil // one per case
 		}
 	}
